@@ -127,6 +127,14 @@ class SplittingSimulation(BaseSimulation):
                 self._results['log_p_errors'][i_p].append(log_p_error)
             self._results['n_runs'] += 1
 
+    def load_results_from_dict(self, data):
+        super().load_results_from_dict(data)
+
+        # One list per error rate, which _run keeps appending to
+        self._results['log_p_errors'] = [
+            list(log_p) for log_p in self._results['log_p_errors']
+        ]
+
     def postprocess(self):
         super().postprocess()
 
